@@ -129,8 +129,13 @@ func cvLambda(g *Gen) []byte {
 
 // tok renders a point argument: mostly the canonical encoding, sometimes a projectively scaled one.
 func (pl *cvPool) tok(x cvPt) string {
-	if pl.g.Intn(4) == 0 {
+	switch pl.g.Intn(8) {
+	case 0, 1:
 		return hx(x.enc) + hx(cvLambda(pl.g))
+	case 2: // unreduced limbs (64-bit backends): each coordinate gets 0..2 extra multiples of p, limb-wise
+		r := []byte{0xaa, 0x55, 0xa6, 0x2a, 0x82, byte(pl.g.Intn(256))}[pl.g.Intn(6)]
+		r &^= (r >> 1) & 0x55 // digits are 0,1,2 (3 -> 2)
+		return hx(x.enc) + hx(cvLambda(pl.g)) + hx([]byte{r})
 	}
 	return hx(x.enc)
 }
@@ -804,6 +809,16 @@ func cvPtArg(tok string) *curve.EdwardsPoint {
 		if !ok {
 			return nil
 		}
+		return p
+	case 65: // enc ‖ λ ‖ r: additionally, the limbs of the four coordinates are left unreduced as the byte r says
+		var e, l [32]byte
+		copy(e[:], b[:32])
+		copy(l[:], b[32:64])
+		p, ok := curve.VerifPointScaled(e, l)
+		if !ok {
+			return nil
+		}
+		curve.VerifPointLoosen(p, b[64])
 		return p
 	}
 	return nil
